@@ -855,8 +855,8 @@ impl Actor {
                     warn!("deal {}, already slashed, terminating now anyway", id);
                 }
 
-                // Deals that were never processed may still have a pending proposal linked
-                if state.last_updated_epoch == EPOCH_UNDEFINED {
+                // Deals that were never processed in-term may still have a pending proposal linked
+                if state.last_updated_epoch <= deal.start_epoch {
                     let dcid = deal_cid(rt, &deal)?;
                     st.remove_pending_deal(rt.store(), dcid)?;
                 }
